@@ -105,13 +105,13 @@ func (e *Engine) noteAssumption(s string) { e.assumptions[s] = true }
 func (e *Engine) noteGlobal(g *ssa.Global, t string) {
 	if _, ok := e.globalsSeen[g]; !ok {
 		el := g.Type().(*types.Pointer).Elem()
-		if _, isIface := el.Underlying().(*types.Interface); isIface && strings.HasPrefix(g.Name(), "Err") && strings.HasSuffix(t, "!0") {
+		if _, isIface := el.Underlying().(*types.Interface); isIface && isErrName(g.Name()) && strings.HasSuffix(t, "!0") {
 			// sentinel errors: non-nil, pairwise distinct, never reassigned
 			e.noteAssumption("package-level Err* variables hold distinct non-nil error values and are never reassigned")
 			e.S.AddAxiom([]string{t}, fmt.Sprintf("(not (= %s (mk_iface 0 0)))", t))
 			for og, ot := range e.globalsSeen {
 				oel := og.Type().(*types.Pointer).Elem()
-				if _, ok := oel.Underlying().(*types.Interface); ok && strings.HasPrefix(og.Name(), "Err") && strings.HasSuffix(ot, "!0") {
+				if _, ok := oel.Underlying().(*types.Interface); ok && isErrName(og.Name()) && strings.HasSuffix(ot, "!0") {
 					e.S.AddAxiom([]string{t, ot}, fmt.Sprintf("(not (= %s %s))", t, ot))
 				}
 			}
@@ -846,6 +846,21 @@ func (e *Engine) havocLoop(st *State, li *loopInfo) {
 			}
 		}
 	}
+	// locations other threads may change at a blocking call inside the loop (at <anchor>: havoc ...)
+	if fr.contract != nil {
+		for _, at := range fr.contract.Ats {
+			if at.Kind == "havoc" && e.anchorInLoop(fr.fn, at.Anchor, li) {
+				var ms []string
+				for _, m := range strings.Split(at.Var, ",") {
+					if m = strings.TrimSpace(m); m != "" {
+						ms = append(ms, m)
+					}
+				}
+				env := e.envFor(st, fr, st.old)
+				e.havocModifies(st, env, &Contract{Modifies: ms, Pkg: fr.contract.Pkg, Key: fr.contract.Key})
+			}
+		}
+	}
 	// ghost variables updated in the loop
 	if fr.contract != nil {
 		for _, at := range fr.contract.Ats {
@@ -1057,6 +1072,15 @@ func (e *Engine) runAts(st *State, in ssa.Instruction, after bool) {
 			e.noteAssumption(fmt.Sprintf("assume at %s in %s: %s", at.Anchor, e.oblPrefix(fr.fn), at.C.Src))
 		case "ghost":
 			e.ghostAssign(st, env, at.Var, at.C.E)
+		case "havoc":
+			var ms []string
+			for _, m := range strings.Split(at.Var, ",") {
+				if m = strings.TrimSpace(m); m != "" {
+					ms = append(ms, m)
+				}
+			}
+			e.havocModifies(st, env, &Contract{Modifies: ms, Pkg: fr.contract.Pkg, Key: fr.contract.Key})
+			e.noteAssumption(fmt.Sprintf("interference at %s in %s: other threads may change %s (constrained only by the assumed monitor invariant)", at.Anchor, e.oblPrefix(fr.fn), at.Var))
 		}
 	}
 }
